@@ -146,7 +146,7 @@ class C17:
         nfiles = rng.choice([1, 2, 4])
         return {"version": version, "via": route, "req": req, "opts": gen_opts(rng),
                 "files": [[f"f{k}", rng.choice([10, 20000, 40000]), rng.randrange(1 << 30)] for k in range(nfiles)],
-                "seed": rng.randrange(1 << 30), "extra_lines": 24 if tier == "quick" else 60,
+                "seed": rng.randrange(1 << 30), "extra_lines": 24 if tier == "quick" else "all",
                 "mode": rng.choice([0o644, 0o644, 0o600, 0o444, 0o400, 0o664]), "relative": rng.random() < 0.3,
                 "unenc": [rng.randrange(len(UNENCODABLE)) for _ in range(2)]}
 
@@ -192,9 +192,12 @@ class C17:
             last[loc] = idx
         line_idx = set(first.values()) | set(last.values())
         nlines = len(p1["lines"])
-        for _ in range(case["extra_lines"]):
-            if nlines:
-                line_idx.add(rng.randint(1, nlines))
+        if case["extra_lines"] == "all":
+            line_idx = set(range(1, nlines + 1))           # thorough tier: crash before EVERY traced line event
+        else:
+            for _ in range(case["extra_lines"]):
+                if nlines:
+                    line_idx.add(rng.randint(1, nlines))
         for k in sorted(line_idx):
             flist.append((("line", k), "line-crash", p1["lines"][k - 1]))
         for idx, (kind, path, extra) in enumerate(p1["ops"]):
@@ -284,7 +287,8 @@ class C17:
                            "metafile_mode": oct(case.get("mode", 0o644)), "relative_path": case.get("relative", False),
                            "line_events_in_trace": nlines, "distinct_lines": len(first),
                            "fs_ops_in_trace": [[k, os.path.basename(p), e if not isinstance(e, list) else e] for k, p, e in p1["ops"]],
-                           "audit_events": p1["audit"], "faulted_executions": execs, "temp_leftovers_unfaulted": p1["leftovers"],
+                           "audit_events": p1["audit"], "faulted_executions": execs,
+                           "every_line_event_enumerated": case["extra_lines"] == "all", "temp_leftovers_unfaulted": p1["leftovers"],
                            "violating_faults": bad_samples}}
 
     @staticmethod
